@@ -2,6 +2,7 @@ import GsModel.Diff.SelfTop
 import GsModel.Diff.Total
 import GsModel.Diff.Guard
 import GsModel.Diff.Terminates
+import GsModel.Diff.TermRec
 /-
   C12 — diff: a spec never differs from itself, and diff never crashes.
 
@@ -27,6 +28,9 @@ import GsModel.Diff.Terminates
                                 if every schema, `$ref`s followed, is at most d levels deep (`Spec.fitsB d`, computed by the
                                 driver on every generated document), the analyser does not run out of fuel d+1: its recursion is
                                 bounded by the nesting of the documents, and with validity it RETURNS A REPORT.
+                                `recursion_through_allOf_is_unbounded` (+ `rec_valid`): the termination half is FALSE of the code for
+                                recursive structures that pass through allOf — on one VALID document the model yields no
+                                report for ANY fuel (the real command dies with a stack overflow); known finding.
                                 NOT proved: termination (“never loops”) for RECURSIVE definitions — there the visited-key
                                 argument that bounds the real recursion is exercised by the correspondence run only.
   * `*_repaired`              — the totality half was FALSE of the pinned code: five concrete valid documents made the
@@ -215,6 +219,32 @@ theorem returns_report (fl : Flags) (n : Nat) (a b : Spec) (ha : ∀ k, a.validB
 example : sampleSpec2.fitsB 3 = true ∧ sampleSpec.fitsB 12 = false := by decide
 example : (analyse {} 4 sampleSpec2 sampleSpec2).isOk = true :=
   returns_report {} 2 sampleSpec2 sampleSpec2 sample2_valid sample2_valid (by decide) (by decide)
+
+/-! ### termination is false in general: recursion through allOf -/
+
+/-- the witness document is valid (every `$ref` resolves, at every depth) … -/
+theorem rec_valid : ∀ k, recSpec.validB k = true := by
+  intro k
+  match k with
+  | 0 => decide
+  | 1 => decide
+  | 2 => decide
+  | k+3 =>
+    simp [Spec.validB, getURLMethodsFor, recSpec, recX, recA, recB, Param.okB, Response.okB, chainOk,
+      schemaOk, Schema.children, refOk, lookup]
+
+/-- … and comparing it with itself never yields a report, whatever the fuel and the iteration order -/
+theorem recursion_through_allOf_is_unbounded (fl : Flags) (n : Nat) : (analyse fl n recSpec recSpec).isOk = false :=
+  Gs.Diff.recursion_through_allOf_is_unbounded fl n
+
+/-- (it does not panic either — `total_no_panic` applies — so the model runs out of fuel: the real recursion has no bound) -/
+theorem recursion_through_allOf_exhausts_fuel (fl : Flags) (n : Nat) : isFuel (analyse fl n recSpec recSpec) = true := by
+  have h1 := recursion_through_allOf_is_unbounded fl n
+  have h2 := total_not_panic fl n recSpec recSpec rec_valid rec_valid
+  cases h : analyse fl n recSpec recSpec with
+  | ok _ => rw [h] at h1; simp [Outcome.isOk] at h1
+  | panic w => rw [h] at h2; simp [Outcome.isPanic] at h2
+  | fuel => rfl
 
 /-! ### the recursion guard -/
 
